@@ -361,7 +361,15 @@ pub fn run(ctx: &Ctx, rep: &mut Report) {
                     }
                     let data = if with_data { rng.bytes_of(&[1, 40]) } else { vec![] };
                     let source = rng.bytes_of(&[0, 20]);
-                    let payload = MHubMsg { to_hub: false, chain: origin.clone(), inner: MItsMsg::Transfer { token_id: t.id, source, dest: addr_bytes(&recipient), amount: amount as u128, amount_hi: 0, data } }.encode();
+                    // now and then the announced amount does not fit 127 bits: it must be refused, never
+                    // credited in part
+                    let too_big = rng.chance(1, 10);
+                    let (amt_lo, amt_hi): (u128, u128) = if too_big {
+                        *rng.pick(&[(amount.max(1) as u128, 1u128), (amount.max(1) as u128, 1 << 63), ((amount.max(1) as u128) | (1 << 127), 0), (amount.max(1) as u128, 1 << 127)])
+                    } else {
+                        (amount as u128, 0)
+                    };
+                    let payload = MHubMsg { to_hub: false, chain: origin.clone(), inner: MItsMsg::Transfer { token_id: t.id, source, dest: addr_bytes(&recipient), amount: amt_lo, amount_hi: amt_hi, data } }.encode();
                     let mid = w.fresh_id();
                     if !w.approve_for_its(HUB_CHAIN, &mid, &hub_addr, &payload) {
                         rep.foreign("honest-approval-refused");
@@ -370,7 +378,10 @@ pub fn run(ctx: &Ctx, rep: &mut Report) {
                     }
                     let refused = t.probe && probe_refuses;
                     let overflow = w.model.balance(&t.addr, &recipient).checked_add(amount).is_none();
-                    let want: Option<bool> = if !origin_ok || app_fails || refused || overflow {
+                    if too_big {
+                        rep.count("inbound-amount:beyond-127-bits");
+                    }
+                    let want: Option<bool> = if too_big || !origin_ok || app_fails || refused || overflow {
                         Some(false)
                     } else if t.lock && custody < amount {
                         Some(false)
@@ -392,7 +403,9 @@ pub fn run(ctx: &Ctx, rep: &mut Report) {
                     }
                     if let Some(wnt) = want {
                         if o.ok() != wnt {
-                            let why = if !origin_ok {
+                            let why = if too_big {
+                                "amount-beyond-127-bits"
+                            } else if !origin_ok {
                                 "untrusted-origin"
                             } else if app_fails {
                                 "application-failed"
@@ -529,6 +542,7 @@ pub fn run(ctx: &Ctx, rep: &mut Report) {
     req.push("offline-conservation-checked".into());
     req.push("gas-token:same-as-transferred".into());
     req.push("outbound-unknown-token".into());
+    req.push("inbound-amount:beyond-127-bits".into());
     rep.notes.insert("required".into(), json!(req));
     rep.notes.insert("token_mode".into(), json!("native"));
     rep.notes.insert("rule".into(), json!("universes of 36 operations over 2 service-deployed tokens (tree code; one with initial supply, one with a designated minter), 3 registered canonical tokens (asset contract, stand-alone interchain token, probe token that can refuse), 4 users: outbound transfers with amount in {0, -1, 1, balance, balance+1, random}, gas in {0, -1, 1, all the payer has, one more}, destination in {trusted, never trusted, removed, hub chain}, with/without data, gas sometimes paid in the transferred token itself; approved inbound transfers (1, exact custody, custody+1, random, 0; with/without data to a destination application that may fail; origin trusted or not); trusted-chain changes; holders' own burns; the designated minter's mints. All balances of all holders (users, service, gas service, application) are compared with the model after every operation; the announced contract_called event is compared with the independent ABI encoding of exactly what was taken, the gas_paid event with that payload's hash and the stated gas; at the end custody = locked - released per canonical token and sum of balances = initial + mints - burns - sent + received per service-deployed token. distinct = (direction, token, amount class, gas class, destination class, outcome)"));
